@@ -95,6 +95,7 @@ func evalC20(in []byte) (vs []*Violation, has bool) {
 	add := func(site, rule, class, detail string) {
 		vs = append(vs, &Violation{Property: "C20", Site: site, Rule: rule, Class: class, Detail: detail, Case: mkCase("C20", site, nil, in, nil)})
 	}
+	defer recoverTo4("IP4Prefix/ContainsIP4", add)
 	var dst [4]byte
 	ok, n, e := sipsp.IP4Prefix(in, dst[:])
 	rok, rn, re, rip := refIP4Prefix(in)
@@ -135,6 +136,20 @@ func evalC20(in []byte) (vs []*Violation, has bool) {
 		}
 		if sig&(sipsp.SigIPStartF|sipsp.SigIPEndF|sipsp.SigIPMiddleF) != want {
 			add("GetCallIDSig", "ip-position-flag-agrees-with-span", "flag", fmt.Sprintf("sig %#x want flag %#x for span %d+%d of %d", sig, want, o, l, len(in)))
+		}
+	}
+	// the destination may be a part of the text buffer itself (e.g. the caller decodes in place): verdict, stop offset
+	// and indication are those of the untouched text, the four bytes are the address
+	if len(in) >= 4 && len(in) <= 24 {
+		for k := 0; k+4 <= len(in); k++ {
+			cp := append([]byte(nil), in...)
+			ok2, n2, e2 := sipsp.IP4Prefix(cp, cp[k:k+4])
+			if ok2 != ok || n2 != n || e2 != e || (ok && !bytes.Equal(cp[k:k+4], dst[:])) {
+				c := mkCase("C20", "IP4Prefix", nil, in, nil)
+				vs = append(vs, &Violation{Property: "C20", Site: "IP4Prefix", Rule: "indication-matches-what-follows", Class: "destination-inside-the-text", Case: c,
+					Detail: fmt.Sprintf("dst=buf[%d:%d]: (%v,%d,%v) bytes %v; separate dst: (%v,%d,%v) bytes %v", k, k+4, ok2, n2, e2, cp[k:k+4], ok, n, e, dst)})
+				break
+			}
 		}
 	}
 	return
